@@ -4,7 +4,11 @@
 // The test runs them in Go and checks, inside Coq, that the translated functions compute the same values.
 package gtfix
 
-import "errors"
+import (
+	"bytes"
+	"errors"
+	"fmt"
+)
 
 type Kind int
 
@@ -152,6 +156,54 @@ func IfInit(m map[string]int, k string) int {
 		return -2
 	}
 	return -1
+}
+
+// FallJoin: a switch whose clauses fall through and cannot leave, assigning two variables, one clause partial (index);
+// what follows the switch is translated once (joinSwitch).
+func FallJoin(s string, n int) int {
+	var a, c uint32 = 1, 2
+	switch n {
+	case 3:
+		c += uint32(s[2]) << 24
+		fallthrough
+	case 2:
+		a += uint32(s[1]) << 8
+		fallthrough
+	case 1:
+		a += uint32(s[0])
+	case 7:
+		c = 9
+	}
+	a -= c
+	c ^= a >> 3
+	return int(a) + int(c)
+}
+
+// RuneSum, RuneIdx: range over the runes of a string (invalid bytes decode as U+FFFD of width 1), continue and break,
+// the byte index, a body that assigns its own range variables.
+func RuneSum(s string) int {
+	n := 0
+	for _, ch := range s {
+		if ch == 'l' {
+			continue
+		}
+		if ch == '!' {
+			break
+		}
+		n += int(ch)
+	}
+	return n
+}
+
+func RuneIdx(s string) int {
+	r := 0
+	for i, ch := range s {
+		r = r*31 + i + int(ch)%7
+		i += 5
+		ch = 'x'
+		r += i + int(ch)
+	}
+	return r
 }
 
 func Panics(x int) int {
@@ -418,4 +470,51 @@ func Evens(n int) []int {
 		}
 	}
 	return r
+}
+
+// BufJoin: a local bytes.Buffer as an accumulator inside a loop (WriteString, WriteByte, Len, Reset, String).
+func BufJoin(s string, n int) string {
+	var out bytes.Buffer
+	for i := 0; i < len(s); i++ {
+		if out.Len() >= n {
+			out.Reset()
+			out.WriteString("..")
+		}
+		if s[i] == '.' {
+			continue
+		}
+		out.WriteByte(s[i])
+		out.Write([]byte("-"))
+	}
+	return out.String() + "|"
+}
+
+// ShowWrap: fields of interface type and slices of them, read through String() and != nil; fmt.Sprintf with %s %d.
+type Named interface{ String() string }
+type Lit string
+
+func (l Lit) String() string { return string(l) }
+
+type Wrap struct {
+	Name string
+	A    Named
+	L    []Named
+	N    int
+}
+
+func ShowWrap(w *Wrap) string {
+	s := fmt.Sprintf("<%s:%d%%:%s>", w.Name, w.N, w.A)
+	if w.A != nil {
+		s += w.A.String()
+	}
+	for i, x := range w.L {
+		if i > 0 {
+			s += ","
+		}
+		s += x.String()
+	}
+	if len(w.L) == 0 {
+		s += "-"
+	}
+	return s
 }
